@@ -257,7 +257,16 @@ def profile_settings(base, u):
 
 
 TAMPERS = ["drop-keys", "lock", "bad-season", "bad-type", "int-for-float", "out-of-bounds", "unknown-key", "drop-nested",
-           "lock-nested", "no-force"]
+           "lock-nested", "no-force", "cross-field", "cross-field"]
+# the cross-field validators of the settings classes (developer fields: developer mode on); True = must be accepted
+CROSS = [({"alpha_final": None}, False), ({"alpha_final": None, "alpha_final_type": None, "final_bounds_scalar": None}, True),
+         ({"alpha_final": 3.0}, False), ({"alpha_final": 1.5}, True), ({"alpha_final": -200.0}, False), ({"alpha_final": 2}, True),
+         ({"final_bounds_scalar": 0.0}, False), ({"final_bounds_scalar": None}, False), ({"final_bounds_scalar": 2.5}, True),
+         ({"initial_step_percentage": 0.75}, False), ({"initial_step_percentage": 0.5}, True), ({"initial_step_percentage": 0.0}, False),
+         ({"initial_step_percentage": None}, False), ({"initial_step_percentage": None, "algorithm_choice": "scipy_slsqp"}, True),
+         ({"split_selection": {"reduce_splits_num_std": [1.0]}}, False), ({"split_selection": {"reduce_splits_num_std": [1.0, -1.0]}}, False),
+         ({"split_selection": {"reduce_splits_num_std": [2.0, 0.5]}}, True), ({"split_selection": {"reduce_splits_num_std": None}}, True),
+         ({"alpha_minimum": -50.0, "alpha_final": -60.0}, False), ({"alpha_minimum": -50.0, "alpha_final": -40.0}, True)]
 
 
 def tamper(rng, st, how):
@@ -286,6 +295,14 @@ def tamper(rng, st, how):
         st.pop(rng.choice(["season", "weekday_weekend", "split_selection"]), None)
     elif how == "no-force":
         st["developer_mode"] = False
+    elif how == "cross-field":
+        upd, _ = rng.choice(CROSS)
+        st["developer_mode"] = True
+        for k, v in copy.deepcopy(upd).items():
+            if isinstance(v, dict):
+                st[k] = dict(st.get(k) or {}, **v)
+            else:
+                st[k] = v
     return st
 
 
@@ -723,6 +740,54 @@ def routing_failures(doc, frame):
     return bad
 
 
+# ---- key order: a stored document is an unordered JSON object
+def permute_keys(obj, mode, rng):
+    """every nested mapping re-ordered: sorted / reversed / shuffled (lists keep their order)"""
+    if isinstance(obj, dict):
+        keys = list(obj)
+        if mode == "sorted":
+            keys = sorted(keys)
+        elif mode == "reversed":
+            keys = keys[::-1]
+        else:
+            rng.shuffle(keys)
+        return {k: permute_keys(obj[k], mode, rng) for k in keys}
+    if isinstance(obj, list):
+        return [permute_keys(x, mode, rng) for x in obj]
+    return obj
+
+
+def reorder_like(obj, ref):
+    """obj with every mapping's keys in the order ref has them (keys ref lacks go last)"""
+    if isinstance(obj, dict) and isinstance(ref, dict):
+        keys = [k for k in ref if k in obj] + [k for k in obj if k not in ref]
+        return {k: reorder_like(obj[k], ref.get(k)) for k in keys}
+    if isinstance(obj, list) and isinstance(ref, list) and len(obj) == len(ref):
+        return [reorder_like(a, b) for a, b in zip(obj, ref)]
+    return obj
+
+
+def writer_order(d):
+    """a daily document with the free-form mappings in the key order a fitted model writes them"""
+    d = copy.deepcopy(d)
+    pick = lambda m, keys: {k: m[k] for k in keys if k in m} | {k: v for k, v in m.items() if k not in keys}
+    for k, sub in d.get("submodels", {}).items():
+        sub["temperature_constraints"] = pick(sub["temperature_constraints"], TCKEYS)
+    info = d.get("info") or {}
+    for name in ("disqualification", "warnings"):
+        info[name] = [pick(w, ["qualified_name", "description", "data"]) for w in info.get(name) or []]
+    d["info"] = pick(info, ["error", "baseline_timezone", "disqualification", "warnings"])
+    return d
+
+
+def key_order_case(case, mode, rng):
+    out = copy.deepcopy(case)
+    out["canon"] = case["doc"]
+    out["doc"] = permute_keys(case["doc"], mode, rng)
+    out["tamper"] = "key-order:" + mode
+    return out
+
+
 # ----------------------------------------------------------------------------------------------------- stream A worker
 
 def run_docs(cases, seed):
@@ -738,7 +803,10 @@ def run_docs(cases, seed):
         o = {"k": case["k"]}
         try:
             with quiet():
-                M = cls.from_dict(copy.deepcopy(doc))
+                if (case.get("tamper") or "").startswith("key-order:sorted"):
+                    M = cls.from_json(json.dumps(doc, sort_keys=True))          # the text path, keys sorted by the writer
+                else:
+                    M = cls.from_dict(copy.deepcopy(doc))
         except Exception as e:
             o["rejected"] = type(e).__name__
             o["rejected_msg"] = str(e)[:200].replace("\n", " ")
@@ -746,6 +814,10 @@ def run_docs(cases, seed):
             continue
         try:
             o["redump"] = json.loads(M.to_json())
+            if "canon" in case:
+                # to_dict keeps the key order it was given for the free-form mappings (temperature_constraints, info,
+                # warnings); documents are compared as unordered objects there: into the order the package writes
+                o["redump"] = writer_order(o["redump"])
             o["season"] = [M.settings.season._num_dict[i] for i in range(1, 13)]
             o["weekday"] = [M.settings.weekday_weekend._num_dict[i] for i in range(1, 8)]
             preds, cf_fail = {}, []
@@ -773,6 +845,16 @@ def run_docs(cases, seed):
                 year = M.predict(daily_data(case["cls"], tz)[1], ignore_disqualification=True)
             o["days"] = day_rows(year)
             o["routing_fail"] = routing_failures(doc, year)
+            if "canon" in case:
+                # the same document with its keys in the canonical order must give the same model
+                with quiet():
+                    Mc = cls.from_dict(copy.deepcopy(case["canon"]))
+                    yc = Mc.predict(daily_data(case["cls"], tz)[1], ignore_disqualification=True)
+                if frame_sig(yc) != frame_sig(year):
+                    x, y = yc["predicted"].to_numpy(dtype=float), year["predicted"].to_numpy(dtype=float)
+                    i = int(np.flatnonzero(~((x == y) | ((x != x) & (y != y))))[0]) if len(x) == len(y) and not np.array_equal(x, y, equal_nan=True) else 0
+                    o["order_fail"] = {"date": str(yc.index[i]), "canonical_order": repr(float(x[i])), "this_order": repr(float(y[i])),
+                                       "model_split": [str(yc["model_split"].iloc[i]), str(year["model_split"].iloc[i])]}
             # the statement's observations: the original is a constructor-made model (never went through from_dict)
             # whenever the document is what a constructor's model stores, else the object from_dict built
             sets = [("year", lambda: daily_data(case["cls"], tz)[1])]
